@@ -377,6 +377,53 @@ def check(run):
                     store.remove(t_.hash())
                 except Exception:
                     pass
+        # 2a'-. the index of t[i] is itself a view (a tasklet: p['lo'], p[0], Tasklet(p, len) ...): the consumer depends on the task under the index too
+        from jug.task import Tasklet as _Tasklet
+        for ci in range(12 if quick else 120):
+            jugenv.reset(store)
+            Rv = [rng.randint(0, 99) for _ in range(5)]
+            pos = rng.randrange(0, 4)
+            Rt = Task(lib.lit, 9000000 + ci, Rv)
+            form = ci % 4
+            if form == 0:
+                Pt_ = Task(lib.lit, 9100000 + ci, {'lo': pos, 'hi': 4})
+                idx, label = Pt_['lo'], "r[p['lo']]"
+            elif form == 1:
+                Pt_ = Task(lib.lit, 9100000 + ci, [pos, 7])
+                idx, label = Pt_[0], 'r[p[0]]'
+            elif form == 2:
+                Pt_ = Task(lib.lit, 9100000 + ci, list(range(pos)))
+                idx, label = _Tasklet(Pt_, len), 'r[Tasklet(p, len)]'
+            else:
+                Pt_ = Task(lib.lit, 9100000 + ci, [[0, pos]])
+                idx, label = Pt_[0][1], 'r[p[0][1]]'
+            view_ = Rt[idx]
+            cons_ = Task(lib.same, view_)
+            rp_ = {'kind': 'tasklet-index', 'form': label, 'values': Rv, 'pos': pos}
+            run.case(('tasklet-index', ci, run.seed), nontrivial=True)
+            run.count('tasklet_index_cases')
+            dep_hashes = {d_.hash() for d_ in cons_.dependencies()} | {dd.hash() for d_ in cons_.dependencies() if isinstance(d_, _Tasklet) for dd in [d_.base] if hasattr(dd, 'hash')}
+            deps_all = set()
+            stack_ = list(cons_.dependencies())
+            while stack_:
+                d_ = stack_.pop()
+                if isinstance(d_, _Tasklet):
+                    stack_.extend(d_.dependencies())
+                else:
+                    deps_all.add(d_.hash())
+            if Pt_.hash() not in deps_all or Rt.hash() not in deps_all:
+                run.fail('view-dependency-missing', 'a consumer of %s does not depend on %s (tasks underneath it: r and p)' % (label, 'p, the task under the index' if Pt_.hash() not in deps_all else 'r'), rp_)
+                continue
+            Rt.run()
+            if cons_.can_run():
+                run.fail('consumer-does-not-wait', 'consumer of %s can_run() although p, the task under the index, has no result' % label, rp_)
+                continue
+            Pt_.run()
+            got_ = value(view_)
+            if got_ != Rv[pos]:
+                run.fail('view-value', 'value(%s) = %r, Python gives %r' % (label, got_, Rv[pos]), rp_)
+            for t_ in (Rt, Pt_):
+                store.remove(t_.hash())
         # 2a'+. elements handed out by return_tuple / iteratetask: consumers of different elements are different invocations with their own values
         from jug import TaskGenerator
         from jug.task import return_tuple, iteratetask
@@ -463,6 +510,25 @@ def check(run):
                     if consumer.can_run():
                         run.fail('consumer-does-not-wait', 'consumer of a mapped slice can_run() although block %d it reads has no result' % miss, rp)
                     blocks[miss].run()
+            # integer items, negative ones included: the element of the list, carried by the block that holds it
+            for b in blocks:
+                if not b.can_load():
+                    b.run()
+            for pidx in range(-n, n):
+                item = mseq[pidx]
+                consumer = Task(lib.lit, 78, item)
+                reported = {bh.index(d.hash()) for d in consumer.dependencies() if d.hash() in bh}
+                want_block = (pidx % n) // step
+                run.count('mapped_int_items')
+                rp = {'kind': 'mapitem', 'n': n, 'step': step, 'index': pidx}
+                if want_block not in reported:
+                    run.fail('view-dependency-missing', 'a consumer of map(f, range(%d), %d)[%d] reads block %d but depends on %s' % (n, step, pidx, want_block, sorted(reported)), rp)
+                try:
+                    gv = value(item)
+                except Exception as e:
+                    gv = 'EXC %s' % type(e).__name__
+                if gv != ref[pidx]:
+                    run.fail('view-value', 'value(map(f, range(%d), %d)[%d]) = %r, the list gives %r' % (n, step, pidx, gv, ref[pidx]), rp)
             for h in bh:
                 store.remove(h)
         # 3. iteratetask
